@@ -10,7 +10,7 @@ open Revm.Proofs.Memory (WF)
 
 /-- the state right after the opcode fetch at boundary `i` of the running section `sec` of a well-formed
 container `c` -/
-structure StartE (s0 : IState) (c : EofCtx) (sec : List Nat) (i : Nat) : Prop extends Base s0 where
+structure StartE (K : EofCtx) (s0 : IState) (c : EofCtx) (sec : List Nat) (i : Nat) : Prop extends Base s0 where
   isEof : s0.isEof = true
   jt : s0.jumpTable = []
   eof : s0.eof = some c
@@ -19,37 +19,44 @@ structure StartE (s0 : IState) (c : EofCtx) (sec : List Nat) (i : Nat) : Prop ex
   code : s0.code = sec
   bdry : i ∈ boundaries sec
   pc : s0.pc = i + 1
+  static : StaticEq K c
 
 /-- the frame continues with the invariant of EOF code, at least 1 gas poorer -/
-def NextE (s0 s' : IState) : Prop := InvE s' ∧ measure s' + 1 ≤ measure s0
+def NextE (K : EofCtx) (s0 s' : IState) : Prop := InvE K s' ∧ measure s' + 1 ≤ measure s0
 
-def ActE (s0 : IState) (a : Action) (s' : IState) : Prop :=
-  InvE s' ∧ measure s' + a.gasLimit + 1 ≤ measure s0 ∧ RetOk a (clen s'.mem)
+def ActE (K : EofCtx) (s0 : IState) (a : Action) (s' : IState) : Prop :=
+  InvE K s' ∧ measure s' + a.gasLimit + 1 ≤ measure s0 ∧ RetOk a (clen s'.mem)
 
 section eof
-variable {s0 : IState} {c : EofCtx} {sec : List Nat} {i : Nat}
+variable {K : EofCtx} {s0 : IState} {c : EofCtx} {sec : List Nat} {i : Nat}
 
-theorem StartE.rel (hs : StartE s0 c sec i) : Rel 0 false false 0 s0 s0 := hs.toBase.rel
+theorem StartE.rel (hs : StartE K s0 c sec i) : Rel 0 false false 0 s0 s0 := hs.toBase.rel
 
 /-- a state that differs from `s0` by what `Core` allows and whose instruction pointer is at a boundary -/
-theorem StartE.invE (hs : StartE s0 c sec i) {k : Nat} {st ne : Bool} {L : Nat} {s' : IState}
-    (hc : Core k st ne L s0 s') (hpc : s'.pc ∈ boundaries sec) : InvE s' :=
+theorem StartE.invE (hs : StartE K s0 c sec i) {k : Nat} {st ne : Bool} {L : Nat} {s' : IState}
+    (hc : Core k st ne L s0 s') (hpc : s'.pc ∈ boundaries sec) : InvE K s' :=
   { toBase := hs.toBase.ofRes hc.toRes
     isEof := by rw [hc.isEof]; exact hs.isEof
     jt := by rw [hc.jt]; exact hs.jt
-    ctx := ⟨c, sec, by rw [hc.eofc]; exact hs.eof, hs.ok, hs.hsec, by rw [hc.code]; exact hs.code, hpc⟩ }
+    ctx := ⟨c, sec, by rw [hc.eofc]; exact hs.eof, hs.ok, hs.hsec, by rw [hc.code]; exact hs.code, hpc⟩
+    static := by
+      intro c1 h1
+      rw [hc.eofc, hs.eof] at h1
+      injection h1 with h1
+      subst h1
+      exact hs.static }
 
-theorem StartE.nextT (hs : StartE s0 c sec i) {s' : IState} (h : DoneT (· ∈ boundaries sec) s0 s') :
-    NextE s0 s' := by
+theorem StartE.nextT (hs : StartE K s0 c sec i) {s' : IState} (h : DoneT (· ∈ boundaries sec) s0 s') :
+    NextE K s0 s' := by
   obtain ⟨k, st, ne, L, hk, hc, hpc⟩ := h
   exact ⟨hs.invE hc hpc, by have := hc.meas; omega⟩
 
-theorem StartE.next1 (hs : StartE s0 c sec i) (hb : i + 1 ∈ boundaries sec) {s' : IState}
-    (h : Done1 s0 s') : NextE s0 s' :=
+theorem StartE.next1 (hs : StartE K s0 c sec i) (hb : i + 1 ∈ boundaries sec) {s' : IState}
+    (h : Done1 s0 s') : NextE K s0 s' :=
   hs.nextT (h.toT (by rw [hs.pc]; exact hb))
 
-theorem StartE.act (hs : StartE s0 c sec i) (hb : i + 1 ∈ boundaries sec) {a : Action} {s' : IState}
-    (h : ActRel s0 a s') : ActE s0 a s' := by
+theorem StartE.act (hs : StartE K s0 c sec i) (hb : i + 1 ∈ boundaries sec) {a : Action} {s' : IState}
+    (h : ActRel s0 a s') : ActE K s0 a s' := by
   obtain ⟨k, st, ne, L, hr, hk, hret⟩ := h
   refine ⟨hs.invE hr.toCore (by rw [hr.pc, hs.pc]; exact hb), by have := hr.meas; omega, ?_⟩
   cases a with
@@ -60,11 +67,11 @@ theorem StartE.act (hs : StartE s0 c sec i) (hb : i + 1 ∈ boundaries sec) {a :
   | create ci => trivial
   | eofCreate ci => trivial
 
-theorem StartE.lt (hs : StartE s0 c sec i) : i < sec.length := ((hs.ok.wf.secs _ _ hs.hsec).2.2 _ hs.bdry).1
+theorem StartE.lt (hs : StartE K s0 c sec i) : i < sec.length := ((hs.ok.wf.secs _ _ hs.hsec).2.2 _ hs.bdry).1
 
-theorem StartE.bytes (hs : StartE s0 c sec i) : ∀ b ∈ sec, b < 256 := (hs.ok.wf.secs _ _ hs.hsec).1
+theorem StartE.bytes (hs : StartE K s0 c sec i) : ∀ b ∈ sec, b < 256 := (hs.ok.wf.secs _ _ hs.hsec).1
 
-theorem StartE.instrOk (hs : StartE s0 c sec i) :
+theorem StartE.instrOk (hs : StartE K s0 c sec i) :
     instrOk (boundaries sec) c.types c.containers c.curIdx sec i = true :=
   ((hs.ok.wf.secs _ _ hs.hsec).2.2 _ hs.bdry).2
 
@@ -126,14 +133,14 @@ theorem jumpiI_satE (h : Rel 0 false false 0 s0 s0) (hjt : s0.jumpTable = []) :
 /-! ### CALLF, RETF, JUMPF -/
 
 /-- the state after `load_eof_code(idx, pc)` with an updated function stack -/
-theorem invE_load {k : Nat} {st ne : Bool} {L : Nat} {s : IState} (hs : StartE s0 c sec i)
+theorem invE_load {k : Nat} {st ne : Bool} {L : Nat} {s : IState} (hs : StartE K s0 c sec i)
     (h : Rel k st ne L s0 s) (c' : EofCtx) (sec' : List Nat) (p : Nat)
     (e1 : c'.sections = c.sections) (e2 : c'.types = c.types) (e3 : c'.containers = c.containers)
     (e4 : c'.data = c.data)
     (hcur : c'.curIdx < c'.sections.length) (hdepth : c'.retStack.length ≤ 1024)
     (hframes : FramesOk c'.sections c'.types c'.curIdx c'.retStack)
     (hsec : c'.sections[c'.curIdx]? = some sec') (hp : p ∈ boundaries sec') :
-    InvE { s with eof := some c', code := sec', origLen := sec'.length, pc := p } :=
+    InvE K { s with eof := some c', code := sec', origLen := sec'.length, pc := p } :=
   { toBase :=
       { (hs.toBase.ofRes h.toRes) with }
     isEof := by show s.isEof = true; rw [h.isEof]; exact hs.isEof
@@ -142,11 +149,18 @@ theorem invE_load {k : Nat} {st ne : Bool} {L : Nat} {s : IState} (hs : StartE s
       { wf := by
           show WfStatic c'.sections c'.types c'.containers c'.data
           rw [e1, e2, e3, e4]; exact hs.ok.wf
-        cur := hcur, depth := hdepth, frames := hframes }, hsec, rfl, hp⟩ }
+        cur := hcur, depth := hdepth, frames := hframes }, hsec, rfl, hp⟩
+    static := by
+      intro c1 h1
+      have h1' : some c' = some c1 := h1
+      injection h1' with h1'
+      subst h1'
+      exact ⟨e1.trans hs.static.sections, e2.trans hs.static.types, e3.trans hs.static.containers,
+        e4.trans hs.static.data⟩ }
 
-theorem callfI_sat (hs : StartE s0 c sec i) (himm : i + 3 ≤ sec.length)
+theorem callfI_sat (hs : StartE K s0 c sec i) (himm : i + 3 ≤ sec.length)
     (hnext : i + 3 ∈ boundaries sec) (hidx : u16At sec (i + 1) < c.types.length) :
-    Exec.Sat (callfI s0) (Halt s0) (fun _ s' => NextE s0 s') := by
+    Exec.Sat (callfI s0) (Halt s0) (fun _ s' => NextE K s0 s') := by
   have h := hs.rel
   unfold callfI
   refine sat_bind (requireEof_pass h hs.isEof) ?_
@@ -201,8 +215,8 @@ theorem callfI_sat (hs : StartE s0 c sec i) (himm : i + 3 ≤ sec.length)
           have h5 : (0 : Nat) + GasCalc.LOW = 5 := rfl
           omega
 
-theorem retfI_sat (hs : StartE s0 c sec i) (hret : returning (typeOf c.types c.curIdx) = true) :
-    Exec.Sat (retfI s0) (Halt s0) (fun _ s' => NextE s0 s') := by
+theorem retfI_sat (hs : StartE K s0 c sec i) (hret : returning (typeOf c.types c.curIdx) = true) :
+    Exec.Sat (retfI s0) (Halt s0) (fun _ s' => NextE K s0 s') := by
   have h := hs.rel
   unfold retfI
   refine sat_bind (requireEof_pass h hs.isEof) ?_
@@ -248,10 +262,10 @@ theorem retfI_sat (hs : StartE s0 c sec i) (hret : returning (typeOf c.types c.c
         have h3 : (0 : Nat) + GasCalc.RETF_GAS = 3 := rfl
         omega
 
-theorem jumpfI_sat (hs : StartE s0 c sec i) (himm : i + 3 ≤ sec.length)
+theorem jumpfI_sat (hs : StartE K s0 c sec i) (himm : i + 3 ≤ sec.length)
     (hidx : u16At sec (i + 1) < c.types.length)
     (hty : returning (typeOf c.types (u16At sec (i + 1))) = true → returning (typeOf c.types c.curIdx) = true) :
-    Exec.Sat (jumpfI s0) (Halt s0) (fun _ s' => NextE s0 s') := by
+    Exec.Sat (jumpfI s0) (Halt s0) (fun _ s' => NextE K s0 s') := by
   have h := hs.rel
   unfold jumpfI
   refine sat_bind (requireEof_pass h hs.isEof) ?_
